@@ -143,6 +143,9 @@ def main():
         index.append({"name": name, "expected_to_fire": props, "file": path, "note": note,
                       "expected_silent": "expected silent" in note or "harmless" in note,
                       "thorough_only": "thorough tier only" in note})
+    # reverts of `fix:` commits that are kept as plain diffs (git -C /repo diff <fix> <fix>^ -- src)
+    index.append({"name": "c20_laplacian_shift_again", "expected_to_fire": ["C20"], "file": "src/geom3/mesh/conformal.rs",
+                  "note": "revert of 00aafb6: the Laplacian diagonal is shifted by 1e-8 again", "expected_silent": False, "thorough_only": False})
     json.dump(index, open(os.path.join(OUT, "index.json"), "w"), indent=1)
     print("wrote", len(index), "mutants")
     subprocess.check_call(["git", "-C", REPO, "diff", "--quiet"])
